@@ -795,8 +795,13 @@ def _cv_inputs(nargs, angles):
 
 
 def _cosd(st, x):
+    """cos(radians(x)) of the specification: the same opaque function as the code's, with the same facts (range, the exact
+    values at the crystallographic angles) - a special case in the code that uses such a fact must not look like a deviation"""
     from pyvc import shims as S
     r = S.COSD_F(to_real(x))
+    st.assume(z3.And(r >= -1, r <= 1))
+    for deg, val in ((0, "1"), (60, "1/2"), (90, "0"), (120, "-1/2"), (180, "-1")):
+        st.assume(S.COSD_F(z3.RealVal(deg)) == z3.RealVal(val))
     return r
 
 
